@@ -243,10 +243,27 @@ Print Assumptions C11_rpm_differs_from_reference.
 
 (* ====== ties to the source: BEGIN (written by bin/mkties) ====== *)
 (* The Go functions named here are translated into Gallina from /repo's source on every run
-   (tools/gen/code.go -> Gen/Code/<Eco>.v); Tie/<Eco>.v, Tie/<Eco>Range.v prove each translation equal to the
-   model the theorems above speak about.  If the code changes so that a tie no longer holds,
-   this file no longer checks. *)
-From Verif.Tie Require Rpm.
+   (tools/gen -> Gen/Code/<Eco>.v for loop-free functions, Gen/Loops/<Eco>.v for functions with
+   loops and index expressions, where a panic is Panic and a loop takes fuel); Tie/<Eco>.v,
+   Tie/<Eco>Range.v and Tie/Loops/<Eco>.v prove each translation equal to the model the theorems
+   above speak about (and, for the loop functions: no panic, termination within a linear bound).
+   If the code changes so that a tie no longer holds, this file no longer checks. *)
+Require Verif.Tie.Rpm.
+Require Verif.Tie.Loops.Rpm.
 Definition C11_tie_rpm_compare := Verif.Tie.Rpm.tie_rpm_compare.
 Print Assumptions C11_tie_rpm_compare.
+Definition C11_tie_loops_rpm_isSeparator := Verif.Tie.Loops.Rpm.tie_loops_rpm_isSeparator.
+Print Assumptions C11_tie_loops_rpm_isSeparator.
+Definition C11_tie_loops_rpm_isSeparator_rune := Verif.Tie.Loops.Rpm.tie_loops_rpm_isSeparator_rune.
+Print Assumptions C11_tie_loops_rpm_isSeparator_rune.
+Definition C11_tie_loops_rpm_compareRPMDigits := Verif.Tie.Loops.Rpm.tie_loops_rpm_compareRPMDigits.
+Print Assumptions C11_tie_loops_rpm_compareRPMDigits.
+Definition C11_tie_rpm_compareRPMNonDigits := Verif.Tie.Loops.Rpm.tie_rpm_compareRPMNonDigits.
+Print Assumptions C11_tie_rpm_compareRPMNonDigits.
+Definition C11_tie_loops_rpm_compareRPMVersionString := Verif.Tie.Loops.Rpm.tie_loops_rpm_compareRPMVersionString.
+Print Assumptions C11_tie_loops_rpm_compareRPMVersionString.
+Definition C11_tie_compareRPMVersionString_total_model := Verif.Tie.Loops.Rpm.compareRPMVersionString_total_model.
+Print Assumptions C11_tie_compareRPMVersionString_total_model.
+Definition C11_tie_rpm_compare_closed := Verif.Tie.Loops.Rpm.tie_rpm_compare_closed.
+Print Assumptions C11_tie_rpm_compare_closed.
 (* ====== ties to the source: END ====== *)
